@@ -862,6 +862,13 @@ def logical_case(ctx, idx, spec=None, stream="logical"):
                     ctx.oracle_fail(stream, dict(case, object=h, ages=[int(t_before - t) for t in copies], grace=gv),
                                     f"unreachable object {h} disappeared although a copy is only {int(age_y)} s old "
                                     f"(grace period {gv} s, {op['op']})", cls)
+            if op["op"] in ("gc", "prune"):
+                # an operation that was entitled to remove a re-added object (no grace period, or one the re-add had
+                # already outlived) ends the protection the re-add gave it, even if a packed copy happens to survive
+                gv0 = _grace_value(g)
+                for h in list(w.touched):
+                    if h not in clos and (gv0 is None or t_before - w.touched[h] >= gv0 - 5):
+                        del w.touched[h]
             if len(ctx.samples) < 2:
                 ctx.sample({"stream": stream, "build": steps, "op": op, "objects_before": len(present0),
                             "reachable": len(expected), "removed": len(gone), "packs_before": len(packs0),
